@@ -2,11 +2,11 @@
 Model driver for C08 (execution limit).
 
 Requests
-* `new <rate:16hex f64 bits> <cap:16hex f64 bits> <limit_ns> <now_ns>`
+* `new <rate:16hex f64 bits> <cap:16hex f64 bits> <max_interval> <limit_ns> <now_ns>`
     → `<interval_instructions> <interval_seconds:16hex> <deadline>`
 * `check <last_check> <deadline> <interval_seconds:16hex> <interval_instructions> <since_last> <limit_ns> <now>`
     → `<skip|ok|timeout> <last_check> <interval_instructions> <since_last> <sound:0|1>`
-* `trace <rate:16hex> <cap:16hex> <limit_ns> <t1> <t2> …`  (clock readings of the clock-reading polls, ns since `new`)
+* `trace <rate:16hex> <cap:16hex> <max_interval> <limit_ns> <t1> <t2> …`  (clock readings of the clock-reading polls, ns since `new`)
     → `<I0> (<calls> <last_check> <interval_instructions> <timed_out:0|1> <sound:0|1>) …`
 * `deliver <t|e> (<code> <handler>…) …`   (frames, top first; `t` = timeout, `e` = ordinary error;
     code 0 = plain frame, 1 = barrier frame (entry boundary))
@@ -57,12 +57,12 @@ def deliveryStr : Delivery → String
 def handle (line : String) : String :=
   let F := nativeTOps
   match line.splitOn " " with
-  | ["new", rate, cap, limit, now] =>
-    match hex64? rate, hex64? cap, limit.toNat?, now.toNat? with
-    | some r, some c, some l, some n =>
-      let s := Timeout.new F r c l n
+  | ["new", rate, cap, maxI, limit, now] =>
+    match hex64? rate, hex64? cap, maxI.toNat?, limit.toNat?, now.toNat? with
+    | some r, some c, some m, some l, some n =>
+      let s := Timeout.new F r c m l n
       s!"{s.intervalInstr} {ValueIO.hex16 s.intervalSeconds} {s.deadline}"
-    | _, _, _, _ => "bad-request"
+    | _, _, _, _, _ => "bad-request"
   | ["check", last, dl, isec, iv, since, limit, now] =>
     match last.toNat?, dl.toNat?, hex64? isec, iv.toNat?, since.toNat?, limit.toNat?, now.toNat? with
     | some last, some dl, some isec, some iv, some since, some limit, some now =>
@@ -72,12 +72,12 @@ def handle (line : String) : String :=
       let sound := p != .ok || decide (UpdateSound F s now)
       s!"{pollStr p} {s'.lastCheck} {s'.intervalInstr} {s'.sinceLast} {b01 sound}"
     | _, _, _, _, _, _, _ => "bad-request"
-  | "trace" :: rate :: cap :: limit :: ts =>
-    match hex64? rate, hex64? cap, limit.toNat?, (ts.filter (· ≠ "")).mapM String.toNat? with
-    | some r, some c, some l, some ts =>
-      let s := Timeout.new F r c l 0
+  | "trace" :: rate :: cap :: maxI :: limit :: ts =>
+    match hex64? rate, hex64? cap, maxI.toNat?, limit.toNat?, (ts.filter (· ≠ "")).mapM String.toNat? with
+    | some r, some c, some m, some l, some ts =>
+      let s := Timeout.new F r c m l 0
       s!"{s.intervalInstr}" ++ String.join ((replay F ts s 0).map (fun x => " " ++ snapStr x))
-    | _, _, _, _ => "bad-request"
+    | _, _, _, _, _ => "bad-request"
   | "deliver" :: kind :: _ =>
     match parseLine line with
     | _ :: _ :: frames =>
